@@ -650,3 +650,69 @@ Proof.
   { induction (i_vals i) as [|v vs IH]; [reflexivity|]. cbn [map existsb snd]. rewrite H, IH. reflexivity. }
   rewrite E. reflexivity.
 Qed.
+
+(* ---------- identity instance of replace_string ---------- *)
+Lemma subst_same r : (forall i, r i = Some (Entry i)) -> forall d, subst r d = [d].
+Proof.
+  intros H. induction d as [i | l IH | l IH | d IH] using doc_ind'; cbn [subst opt_list map].
+  - rewrite H. reflexivity.
+  - f_equal. f_equal. induction IH as [|x l' Hx _ IHl]; [reflexivity|]. cbn [flat_map]. rewrite Hx, IHl. reflexivity.
+  - f_equal. f_equal. induction IH as [|x l' Hx _ IHl]; [reflexivity|]. cbn [flat_map]. rewrite Hx, IHl. reflexivity.
+  - rewrite IH. reflexivity.
+Qed.
+Lemma subst_top_same r : (forall i, r i = Some (Entry i)) -> forall d, subst_top r d = d.
+Proof.
+  intros H d.
+  assert (G : forall l, flat_map (subst r) l = l).
+  { induction l as [|x l IH]; [reflexivity|]. cbn [flat_map]. rewrite (subst_same r H), IH. reflexivity. }
+  destruct d; cbn [subst_top]; rewrite ?G; reflexivity.
+Qed.
+(* a substitution that changes no plain form: the documented rewrite is the identity *)
+Lemma rw_replace_id c sub i : (forall p, sub p = p) -> scoped (im_of c) (rw_values (tvs_replace sub)) i = Some (Entry i).
+Proof.
+  intros H. unfold scoped. destruct (im_of c i); [|reflexivity]. unfold rw_values.
+  assert (E : flat_map (tvs_replace sub (i_field i)) (i_vals i) = i_vals i).
+  { induction (i_vals i) as [|v vs IH]; [reflexivity|]. cbn [flat_map]. rewrite IH.
+    destruct v as [[c0 s|n| | | | | | ]|]; try reflexivity; unfold tvs_replace; rewrite H, str_eqb_refl; reflexivity. }
+  rewrite E, ditem_eta. reflexivity.
+Qed.
+Theorem identity_replace c tbl r :
+  (forall p, tbl_sub tbl p = p) ->
+  rule_ok (item_exact_ok c (TReplace tbl)) r = true ->
+  rdocs_of (apply_tspec c (TReplace tbl) r) = rdocs_of r.
+Proof.
+  intros Hs Hok. rewrite tspec_exact by (unfold rule_exact_ok; rewrite Hok; apply orb_true_r).
+  cbn [rewrite_tspec]. rewrite <- (map_id (rdocs_of r)) at 2. apply map_ext. intros [n d]. cbn [fst snd]. f_equal.
+  apply subst_top_same. intros i. apply (rw_replace_id c (tbl_sub tbl) i Hs).
+Qed.
+
+(* ---------- refutations (replayed against the real code by the correspondence corpus) ---------- *)
+Definition no_conds : conds := mkC true [] false [] false.
+Definition asg_num (_ : option str) (a : aval) : bool := match a with ANum _ => true | _ => false end.
+Definition kwnum_rule : rule := mkR [([115], DD [DI (mkI None [V (ANum [49])] false false)] true)] [115] [].
+Lemma keyword_number_refuted :
+  exists asg c t r, meanings asg (apply_tspec c t r) <> doc_meanings asg (rewrite_tspec c t (rdocs_of r)).
+Proof.
+  exists asg_num, no_conds, (TFieldMap [(None, FOne [109])]), kwnum_rule. vm_compute. discriminate.
+Qed.
+Definition num_rule : rule := mkR [([115], DD [DI (mkI (Some [103]) [V (ANum [49; 50; 51])] false false)] true)] [115] [].
+Lemma replace_number_refuted :
+  exists asg c r, meanings asg (apply_tspec c (TReplace []) r) <> meanings asg r.
+Proof. exists asg_num, no_conds, num_rule. vm_compute. discriminate. Qed.
+(* x, backslash, wildcard *)
+Definition bswild_rule : rule :=
+  mkR [([115], DD [DI (mkI (Some [104]) [V (AStr false [PStr [120; 92]; PMulti])] false false)] true)] [115] [].
+Definition asg_wild (_ : option str) (a : aval) : bool :=
+  match a with AStr _ s => contains_special s | _ => false end.
+Lemma replace_bswild_refuted :
+  exists asg c r, meanings asg (apply_tspec c (TReplace []) r) <> meanings asg r.
+Proof. exists asg_wild, no_conds, bswild_rule. vm_compute. discriminate. Qed.
+
+(* the repaired one-to-many mapping of a negated item: f|neq: v with f -> [a, b] means not (a=v or b=v) *)
+Definition neq_rule : rule := mkR [([115], DD [DI (mkI (Some [102]) [V (AStr false [PStr [118]])] false true)] true)] [115] [].
+Lemma onetomany_neq_example asg :
+  meanings asg (apply_tspec no_conds (TFieldMap [(Some [102], FMany [[97]; [98]])]) neq_rule)
+  = [([115], Some (negb (asg (Some [97]) (AStr false [PStr [118]]) || asg (Some [98]) (AStr false [PStr [118]]))))].
+Proof.
+  vm_compute. repeat match goal with |- context [asg ?a ?b] => destruct (asg a b) end; reflexivity.
+Qed.
